@@ -187,7 +187,7 @@ func wConfig(prop, tier string) *Config {
 		ops := []string{"bond_lp1_L", "bond_lp1_D", "bond_t1_L", "bond_t2_L", "unbond_t1_half", "unbond_lp2_half", "unbond_lp2_D", "unbond_lp2_all", "llp_open_t1_x3", "llp_open_t1_x2_again", "llp_open_t2_x5", "llp_close_half_t1", "llp_close_full_t1", "llp_close_full_t2", "llp_bot_close_all",
 			"price_atom_2", "price_atom_12", "gap_1d", "gap_30d", "swap_in_p1_usdc_atom_XL", "empty"}
 		cfg.Oracles = []*Oracle{OracleC06()}
-		ops = append(ops, "cfg_llp_fallback_off")
+		ops = append(ops, "cfg_llp_fallback_off", "upgrade_stablestake_prev_version")
 		if thorough {
 			cfg.Phases = []Phase{{Name: "full-depth3", Roots: roots0123, Ops: ops, Depth: 3, Dev: 3}, {Name: "core-depth4", Roots: []string{"R1", "R3"}, Ops: []string{"bond_lp1_D", "unbond_lp2_half", "llp_open_t1_x3", "llp_open_t2_x5", "llp_close_half_t1", "llp_close_full_t1", "llp_bot_close_all", "price_atom_2", "gap_30d", "swap_in_p1_usdc_atom_XL"}, Depth: 4, Dev: 3}}
 		} else {
@@ -279,6 +279,11 @@ func wConfig(prop, tier string) *Config {
 				d = 3
 			}
 			cfg.Phases = append(cfg.Phases, Phase{Name: fmt.Sprintf("record-cleanup-depth%d", d), Roots: []string{"R15"}, Ops: []string{"vest_now_all_t1", "vest_now_all_lp1", "mc_claim_t1", "join_p1_all_t1", "exit_p1_all_t1", "gap_1d", "empty"}, Depth: d, Dev: 2})
+		}()
+		// a CHAIN UPGRADE (the amm module's registered balance-matching migration, run the way the upgrade handler
+		// runs it) on pools whose accounts also hold a token that is not a pool asset
+		defer func() {
+			cfg.Phases = append(cfg.Phases, Phase{Name: "upgrade-depth3", Roots: []string{"R1"}, Ops: []string{"donate_p2_atom_foreign", "upgrade_amm_prev_version", "swap_in_p2_usdc_elys_L", "exit_p2_half_lp1", "join_p1_all_t1", "empty"}, Depth: 3, Dev: 4})
 		}()
 		if thorough {
 			cfg.Phases = []Phase{{Name: "full-depth3", Roots: []string{"R0", "R1", "R2", "R5", "R10"}, Ops: ops, Depth: 3, Dev: 3}}
@@ -379,6 +384,17 @@ func wConfig(prop, tier string) *Config {
 			for i := range cfg.Phases {
 				if strings.HasPrefix(cfg.Phases[i].Name, "full-") {
 					cfg.Phases[i].Ops = append(append([]string{}, cfg.Phases[i].Ops...), perpEdgeOps...)
+				}
+			}
+		}
+	}
+	// the SECOND ROUTE to an open perpetual position: a tradeshield limit-open order executed by a third party
+	// (tradeshield holds its own reference to the perpetual keeper) — every property that sees perpetual positions
+	for _, p := range []string{"C01", "C09", "C11"} {
+		if p == prop {
+			for i := range cfg.Phases {
+				if strings.HasPrefix(cfg.Phases[i].Name, "full-") {
+					cfg.Phases[i].Ops = append(append([]string{}, cfg.Phases[i].Ops...), "ts_perp_long_met_own1", "ts_perp_short_unmet_own1", "ts_execute_all_bot", "ts_execute_all_bot_at_8")
 				}
 			}
 		}
